@@ -32,7 +32,7 @@ GROUPS = {
 
 ALPHA = 'all byte strings of exactly that length over the 38-symbol alphabet of the property (digits, signs, ., e/E, x, o, hex letters, _, ~, the letters of null/true/false/inf/nan in both cases); f64::from_str replaced by a stub of its documented grammar (value of decimal floats trusted to std)'
 GROUPS['C08'] = [{
-    'crate': 'saphyr', 'appends': {'scalar.rs': 'scalar_harness.rs'}, 'timeout': 7000,
+    'crate': 'saphyr', 'appends': {'scalar.rs': 'scalar_harness.rs'}, 'timeout': 7000, 'jobs_thorough': 2,
     'harnesses': {
         'c08_untagged_len1': {'obl': 'parse_from_cow.core-schema.len1', 'kind': 'bounded', 'bound': 'length 1; ' + ALPHA, 'what': 'untagged plain scalar: typed null/bool/int/float only for core-schema literals with the denoted value, JSON literals / 64-bit ints / floats recognised, else identical string', 'tier': 'quick'},
         'c08_untagged_len2': {'obl': 'parse_from_cow.core-schema.len2', 'kind': 'bounded', 'bound': 'length 2; ' + ALPHA, 'what': 'same, length 2', 'tier': 'quick'},
@@ -168,10 +168,13 @@ def run(pid, tier, seed, scratch, repo):
             if probs:
                 undecided.append('kani fidelity mismatch (framework error): %s' % probs[0])
                 continue
-            r = runkani.run(cdir, sorted(hs), jobs=min(8, len(hs)), timeout=g.get('timeout', 3000),
+            # some CBMC runs need 25+ GB (C08 at length 5): a group may cap how many run side by side
+            r = runkani.run(cdir, sorted(hs), jobs=min(g.get('jobs_' + tier, g.get('jobs', 8)), len(hs)), timeout=g.get('timeout', 3000),
                             harness_timeout=g.get('harness_timeout'))
             r['cached'] = False
-            if not r['timed_out'] and r['harnesses']:
+            # only decided runs are worth keeping: a harness cut off by a time-out or killed for lack of memory may
+            # well finish next time
+            if not r['timed_out'] and r['harnesses'] and all(h.get('status') in ('SUCCESSFUL', 'FAILED') for h in r['harnesses'].values()):
                 os.makedirs(CACHE, exist_ok=True)
                 json.dump(r, open(cp, 'w'))
         cov['cmds'].append(r['cmd'])
